@@ -7,30 +7,41 @@ import slicer
 from framework import mcprobe
 
 ESC_HARNESS = r'''
-fn escape_char(ch: char) -> String {
+fn escape_char(ch: charEXTRA_PARAMS) -> String {
     MATCH_EXPR
 }
-// K-C02-a: every char is serialised so that an XML parser gives back exactly that char, and never as raw markup
+fn is_ref(b: &[u8], w: &[u8]) -> bool { b == w }
+fn check(ch: char, out: &String, attr_context: bool) {
+    let b = out.as_bytes();
+    // what an XML parser must give back is exactly ch: markup characters only as references; in an attribute value also the delimiter DELIM
+    let want: Option<&[u8]> = match ch { '<' => Some(b"&lt;"), '&' => Some(b"&amp;"),
+        '\u{2061}' => Some(b"&#x2061;"), '\u{2062}' => Some(b"&#x2062;"), '\u{2063}' => Some(b"&#x2063;"), '\u{2064}' => Some(b"&#x2064;"), _ => None };
+    let mut tmp = [0u8; 4];
+    let e = ch.encode_utf8(&mut tmp).as_bytes();
+    match want {
+        Some(w) => assert!(is_ref(b, w), "a markup / invisible character is not written as its XML reference"),
+        None => {
+            if ch == '>' { assert!(is_ref(b, b"&gt;") || is_ref(b, b">"), "'>' changed"); }
+            else if ch == '"' { assert!(is_ref(b, b"&quot;") || (is_ref(b, b"\"") && !(attr_context && DELIM == '"')), "a double quote that delimits the attribute value is written raw"); }
+            else if ch == '\'' { assert!(is_ref(b, b"&apos;") || (is_ref(b, b"'") && !(attr_context && DELIM == '\'')), "an apostrophe that delimits the attribute value is written raw"); }
+            else { assert!(b.len() == e.len(), "ordinary character changed length"); let mut i = 0; while i < e.len() { assert!(b[i] == e[i], "ordinary character changed"); i += 1; } }
+        }
+    }
+}
+const DELIM: char = DELIM_CHAR;
+// K-C02-a: every char is serialised so that an XML parser gives back exactly that char: in element content (arguments as format_element passes
+// them) and inside an attribute value (arguments as format_attrs passes them, value delimited by DELIM)
 HARNESS(special_chars_escaped, 12) {
     let ch = sym::ch();
-    let out = escape_char(ch);
-    let b = out.as_bytes();
     cover!(ch == '<', "less-than reachable");
     cover!(ch == '\u{2062}', "invisible times reachable");
     cover!((ch as u32) > 0xFFFF, "astral char reachable");
-    let want: Option<&[u8]> = match ch { '<' => Some(b"&lt;"), '>' => Some(b"&gt;"), '&' => Some(b"&amp;"), '"' => Some(b"&quot;"), '\'' => Some(b"&apos;"),
-        '\u{2061}' => Some(b"&#x2061;"), '\u{2062}' => Some(b"&#x2062;"), '\u{2063}' => Some(b"&#x2063;"), '\u{2064}' => Some(b"&#x2064;"), _ => None };
-    match want {
-        Some(w) => assert!(b == w, "special character is not written as its XML reference"),
-        None => {
-            let mut tmp = [0u8; 4];
-            let e = ch.encode_utf8(&mut tmp).as_bytes();
-            assert!(b.len() == e.len(), "ordinary character changed length");
-            let mut i = 0;
-            while i < e.len() { assert!(b[i] == e[i], "ordinary character changed"); i += 1; }
-        }
-    }
-    core::mem::forget(out);
+    cover!(ch == '\'', "apostrophe reachable");
+    let t = escape_char(chTEXT_ARGS);
+    check(ch, &t, false);
+    let a = escape_char(chATTR_ARGS);
+    check(ch, &a, true);
+    core::mem::forget(t); core::mem::forget(a);
 }
 '''
 
@@ -89,6 +100,20 @@ SPEC = [("mfrac", "n == 2"), ("mroot", "n == 2"), ("msub", "n == 2"), ("msup", "
         ("mrow", "true"), ("mtable", "true")]
 
 
+def api_escape(vals=None, out=None):
+    import xml.dom.minidom
+    res = mcprobe([("mathml", "<math><mi data-note=\"Newton's &lt;x&gt; &amp; &quot;y&quot;\">a&lt;b</mi></math>")])
+    if res[0][0] != "OK":
+        return True, {"result": res[0]}
+    try:
+        d = xml.dom.minidom.parseString(res[0][1].strip())
+        mi = d.getElementsByTagName("mi")[0]
+        ok = mi.getAttribute("data-note") == "Newton's <x> & \"y\"" and mi.firstChild.data == "a<b"
+    except Exception as e:  # noqa
+        return True, {"not well-formed": str(e), "returned": res[0][1]}
+    return not ok, {"script": "set_mathml with quotes / markup characters in an attribute value and in text: the returned string must parse back to the same values", "returned": res[0][1][:300]}
+
+
 def api_arity(vals=None, out=None):
     res = mcprobe([("mathml", "<math><mmultiscripts><mi>x</mi><mn>1</mn></mmultiscripts></math>"), ("mathml", "<math><mi>y</mi></math>"),
                    ("mathml", "<math><mmultiscripts><mi>x</mi><mn>1</mn><mn>2</mn><mprescripts/><mn>3</mn></mmultiscripts></math>")])
@@ -102,13 +127,33 @@ def build(run):
     pp = slicer.Source.get("src/pretty_print.rs")
     hsc = pp.find("fn handle_special_chars")
     mexpr = pp.find_expr("match ch", within=hsc)
-    run.uses(hsc, mexpr)
-    crate_a = kani_run.Crate("c02esc", ESC_HARNESS.replace("MATCH_EXPR", mexpr.text))
-    run.bound("K-C02-a", "every char (all 0x110000 scalar values); the closure body `match ch {..}` of handle_special_chars compiled verbatim")
-    run.assume("the per-character closure is applied to every char of the text by chars().map().collect().join() (std iterator plumbing, not encoded)")
+    fa = pp.find("fn format_attrs")
+    fe = pp.find("fn format_element")
+    run.uses(hsc, mexpr, fa, fe)
+    import re
+    sig = re.search(r"fn handle_special_chars\(\s*\w+\s*:\s*&str\s*((?:,\s*\w+\s*:\s*[\w&]+\s*)*)\)", hsc.text)
+    if not sig:
+        raise slicer.SliceError("signature of handle_special_chars not understood")
+    extra_params = sig.group(1)          # e.g. ", is_attr_value: bool"
+    n_extra = extra_params.count(":")
+
+    def call_args(fn_span):
+        m = re.search(r"handle_special_chars\(\s*(?:[^(),]|\([^()]*\))+((?:,\s*(?:true|false|\d+)\s*)*)\)", fn_span.text)
+        if not m or m.group(1).count(",") != n_extra:
+            raise slicer.SliceError("call of handle_special_chars in %s not understood" % fn_span.name)
+        return m.group(1)
+    text_args, attr_args = call_args(fe), call_args(fa)
+    dm = re.search(r'format!\(\s*"\s*\{\}=(.)\{\}(.)"', fa.text)
+    if not dm or dm.group(1) != dm.group(2) or dm.group(1) not in "\'\"":
+        raise slicer.SliceError("attribute delimiter of format_attrs not found")
+    delim = "\'\\\'\'" if dm.group(1) == "\'" else "\'\"\'"
+    crate_a = kani_run.Crate("c02esc", ESC_HARNESS.replace("MATCH_EXPR", mexpr.text).replace("EXTRA_PARAMS", extra_params).replace("TEXT_ARGS", text_args)
+                             .replace("ATTR_ARGS", attr_args).replace("DELIM_CHAR", delim))
+    run.bound("K-C02-a", "every char (all 0x110000 scalar values), in element content and in an attribute value (delimiter %s, taken from format_attrs); the closure body `match ch {..}` of handle_special_chars compiled verbatim" % dm.group(1))
+    run.assume("the per-character closure is applied to every char of the text by chars().map().collect().join() (std iterator plumbing, not encoded); the extra arguments the two call sites pass are read from format_element / format_attrs")
     run.kani(crate_a, [dict(id="K-C02-a.special_chars_escaped", harness="special_chars_escaped", role=lambda v, o: "char=U+%04X" % int.from_bytes(bytes(v[0]), "little"),
-                            covers=["less-than reachable", "invisible times reachable", "astral char reachable"],
-                            claim="< > & \" ' and U+2061..2064 are written as their references, every other char unchanged")], timeout=300)
+                            api=lambda v, o: api_escape(), covers=["less-than reachable", "invisible times reachable", "astral char reachable", "apostrophe reachable"],
+                            claim="< & and U+2061..2064 are written as references, the attribute delimiter is escaped inside attribute values, every other char is unchanged")], timeout=300)
 
     # ---- b: arity -----------------------------------------------------------------------------------------------------------------
     c = slicer.Source.get("src/canonicalize.rs")
